@@ -47,7 +47,14 @@ pub fn child(a: &Args) {
     let text = if via == "file" { std::fs::read_to_string(&path).ok() } else { Some(alist.clone()) };
     let href: Option<SparseMatrix> = text.as_ref().and_then(|t| guarded(|| SparseMatrix::from_alist(t).ok()).unwrap_or(None));
     let enc_ref = href.as_ref().and_then(|h| if h.num_rows() >= 1 && h.num_cols() >= h.num_rows() { guarded(|| Encoder::from_h(h).ok()).unwrap_or(None) } else { None });
-    log(json!({"t": "pre", "op": "ctor", "file_ok": text.is_some(), "ref_alist_ok": href.is_some(), "ref_enc_ok": enc_ref.is_some()}));
+    // "matrices whose last columns are singular": decided by the harness's own GF(2) elimination, not by the library under test
+    let tail_inv = href.as_ref().map(|h| {
+        if h.num_rows() >= 1 && h.num_cols() >= h.num_rows() {
+            let rows: Vec<Vec<usize>> = (0..h.num_rows()).map(|r| h.iter_row(r).copied().collect()).collect();
+            crate::linalg2::inverse_or_kernel(&crate::linalg2::tail(&crate::linalg2::dense(&rows, h.num_cols()))).is_ok()
+        } else { false }
+    }).unwrap_or(false);
+    log(json!({"t": "pre", "op": "ctor", "file_ok": text.is_some(), "ref_alist_ok": href.is_some(), "ref_enc_ok": enc_ref.is_some(), "tail_inv": tail_inv}));
     // raw (possibly non-UTF-8) bytes for a C string argument, when the scenario gives them; the string fields then hold the lossy decoding
     let raw = |key: &str, dflt: &str| -> CString {
         match sc[key].as_array() {
